@@ -390,6 +390,10 @@ pub fn special_ext_tasks() -> Vec<ExtTask> {
         mk("in(X,X) :- in(X). out(X) :- in(X,X).", false, "out(X) :- in(X). in(X,Y) :- in(X), in(Y).", "input: in/1. output: out/1.", ""),
         mk("spec: forall X (q(X,X) <-> in(X)). spec: forall X Y (q(X,Y) -> X = Y).", true, "q(X) :- in(X). q(X,X) :- q(X).", "input: in/1. output: q/2.", ""),
         mk("q(X) :- in(X). out(X) :- q(X).", false, "q(X) :- in(X). q :- q(X). out(X) :- q(X), q.", "input: in/1. output: out/1.", "lemma: forall X (q(X) -> in(X))."),
+        // symbolic constants that occur ONLY in a later guard of a chained comparison (user guide, specification, lemma)
+        mk("out(X) :- in(X).", false, "out(X) :- in(X), X = X.", "input: in/1. output: out/1. assumption: forall X (in(X) -> a < X < c).", ""),
+        mk("spec: forall X (out(X) <-> in(X)). assumption: forall X (in(X) -> 1 <= X < c0 < d).", true, "out(X) :- in(X).", "input: in/1. output: out/1.", ""),
+        mk("out(X) :- in(X).", false, "out(X) :- in(X), X = X.", "input: in/1. output: out/1.", "lemma: forall X (out(X) -> X < a0 <= e or not X < a0 or not a0 <= e)."),
     ]
 }
 
